@@ -22,7 +22,7 @@ func (fx *Fx) loopAnn(fn *ssa.Function, li *LoopInfo) *LoopAnn {
 			return a
 		}
 	}
-	if fx.Sweep && !isConstLoop(li) {
+	if (fx.Sweep || (fx.C != nil && fx.C.AutoLoops)) && !isConstLoop(li) {
 		return fx.autoAnn(li)
 	}
 	return nil
@@ -300,6 +300,9 @@ func (fx *Fx) loopEntryAfterPhis(st *State, li *LoopInfo) *State {
 					nl[i] = Subst(l, sub)
 				}
 				st.Top().Vals[p] = Val{T: v.T, L: nl}
+				// the type facts were stated for the havocked leaves: restate them for the substituted value
+				nv := Val{T: p.Type(), L: nl}
+				fx.assumeTypeInv(st, nv)
 			}
 		}
 	}
